@@ -147,7 +147,7 @@ func checkC06(p *Prog, r *Result, tier string) {
 		}}
 	}, nil)
 	r.Rule("C06.R3", "ITER (premise of the vetted batch-protocol exemptions): every iteration of the batch entry's validating loop assigns the element its identifier (the scratch index tells batch members apart by UUID), performs a successful Validate, a successful serialisation check, a successful insertion into the scratch index and a successful uniqueness check against the live index", 1)
-	checkValidateLoops(p, c, r, "C06.R3", effs(ECallInit, EOkValid, EOkUniqLive, EOkAcceptTemp))
+	checkValidateLoops(p, c, r, "C06.R3", effs(ECallInit, EOkValid, EOkSer, EOkUniqLive, EOkAcceptTemp))
 }
 
 func c06Event(l *effListener, x *Explorer, st *State, ev *Event) {
